@@ -858,6 +858,52 @@ func c15Tables(c *Ctx) {
 	}
 }
 
+// c15PosLits round-trips a literal placed at boundary positions of the Pos packing (large offsets
+// cannot be reached by parsing cheaply).  Judged only for valid positions; witness `poslit O L C`.
+func c15PosLits(c *Ctx, cases [][3]uint64) {
+	if cases == nil {
+		offs := []uint64{0, 1, 65535, 65536, 1 << 24, 1<<31 - 1, 1 << 31, 4294967283, 4294967284}
+		lines := []uint64{1, 16383, 16384, 65535, 65536, 131072, 262142, 262143}
+		cols := []uint64{1, 255, 256, 16382, 16383}
+		for _, o := range offs {
+			cases = append(cases, [3]uint64{o, lines[c.R.Intn(len(lines))], cols[c.R.Intn(len(cols))]})
+		}
+		for _, l := range lines {
+			cases = append(cases, [3]uint64{offs[c.R.Intn(len(offs))], l, cols[c.R.Intn(len(cols))]})
+		}
+		for _, cl := range cols {
+			cases = append(cases, [3]uint64{offs[c.R.Intn(len(offs))], lines[c.R.Intn(len(lines))], cl})
+		}
+		cases = append(cases, [3]uint64{7, 0, 9}, [3]uint64{7, 9, 0}) // one half unknown, still valid
+	}
+	for _, k := range cases {
+		witness := fmt.Sprintf("poslit %d %d %d", k[0], k[1], k[2])
+		p := syntax.NewPos(uint(k[0]), uint(k[1]), uint(k[2]))
+		if !p.IsValid() {
+			continue
+		}
+		lit := &syntax.Lit{ValuePos: p, ValueEnd: p, Value: "x"}
+		text, pn, err := c15Encode(lit)
+		if pn != "" || err != nil {
+			c.Fail(witness, "Encode of a literal at a valid position fails: "+pn+fmt.Sprint(err))
+			continue
+		}
+		c.Hist["poslit"]++
+		dn, pn, derr := c15Decode(text)
+		if js, ok := c15JText(text); ok && pn == "" {
+			c.Op("decode "+js, c15DecodeAnswer(dn, derr))
+		}
+		switch {
+		case pn != "":
+			c.Fail(witness, "Decode panicked on Encode's output: "+pn)
+		case derr != nil:
+			c.Fail(witness, "Decode rejects Encode's output: "+derr.Error())
+		case !reflect.DeepEqual(dn, syntax.Node(lit)):
+			c.Fail(witness, "Decode(Encode(lit)) differs: "+c15Diff(reflect.ValueOf(dn), reflect.ValueOf(syntax.Node(lit)), "node"))
+		}
+	}
+}
+
 func c15PosOps(c *Ctx, n int) {
 	edge := []uint64{0, 1, 2, 16382, 16383, 16384, 16385, 262142, 262143, 262144, 262145, 1 << 20, 4294967283, 4294967284, 4294967285, 4294967286, 4294967295, 4294967296, 1 << 40}
 	pick := func() uint64 {
@@ -937,6 +983,11 @@ func c15(c *Ctx) {
 			nl, _ := strconv.Atoi(f[1])
 			nc, _ := strconv.Atoi(f[2])
 			srcs = append(srcs, c15Src{src: strings.Repeat("\n", nl) + strings.Repeat(" ", nc) + unhx(f[3]), big: l, corpus: true, onlyOne: true})
+		case len(f) == 4 && f[0] == "poslit":
+			o, _ := strconv.ParseUint(f[1], 10, 64)
+			ln, _ := strconv.ParseUint(f[2], 10, 64)
+			cl, _ := strconv.ParseUint(f[3], 10, 64)
+			c15PosLits(c, [][3]uint64{{o, ln, cl}})
 		case len(f) == 2 && f[0] == "rec":
 			srcs = append(srcs, c15Src{src: unhx(f[1]), big: l, corpus: true, onlyOne: true, recOnly: true})
 		case len(f) >= 1:
@@ -947,6 +998,19 @@ func c15(c *Ctx) {
 	}
 	for _, v := range variantSnippetSources() {
 		srcs = append(srcs, c15Src{src: v, corpus: true})
+	}
+	// Boundaries of the Pos packing (18 bits of line, 14 of column), reached cheaply: N newlines
+	// and a long line before a tiny program (LangBash, root node only; witness `big N C hex`).
+	// Generator exclusion (known finding C15-invalid-pos-dropped): the line AND the column never
+	// overflow together — beyond line 262143 every column stays ≤ 16383, end positions included.
+	if c.Shard == 0 {
+		prog := "foo"
+		for _, b := range [][2]int{{0, 16380}, {0, 16383}, {16383, 0}, {16384, 3}, {65534, 0}, {65535, 0}, {65536, 16379},
+			{70000, 0}, {262141, 0}, {262142, 16390}, {262143, 0}, {262144, 5}, {300000, 16000}} {
+			srcs = append(srcs, c15Src{src: strings.Repeat("\n", b[0]) + strings.Repeat(" ", b[1]) + prog,
+				big: fmt.Sprintf("big %d %d %s", b[0], b[1], hx(prog)), corpus: true, onlyOne: true})
+		}
+		c15PosLits(c, nil)
 	}
 	seeds := repoSeeds()
 	nSeeds := c.N / 2
